@@ -96,7 +96,7 @@ PROPS = {
         "modules": ["PgBifrost.Props.C07"],
         "components": ["client", "connmgr"],
         "required_theorems": ["PgBifrost.Props.C07.stamp_attribution", "PgBifrost.Props.C07.keys_unique",
-                              "PgBifrost.Props.C07.one_commit_per_key", "PgBifrost.Props.C07.one_commit_per_key_full", "PgBifrost.Props.C07.begin_without_commit"],
+                              "PgBifrost.Props.C07.one_commit_per_key", "PgBifrost.Props.C07.one_commit_per_key_full", "PgBifrost.Props.C07.framing_as_in_source", "PgBifrost.Props.C07.begin_without_commit"],
         "assumptions": ["PG-stream grammar (DESIGN §3) as decidable hypothesis pgGrammar on the history",
                         "clock readings strictly increasing across BEGINs of the same transaction id; ids contain no '-'"],
     },
